@@ -100,11 +100,16 @@ def main():
         ("where-3-traced", lambda x, c: anp.where(x, x * c, x + c) + x),
         ("fma-3-traced", lambda x, c: fma(x, x * c, x + c) + fma(x, x, x)),
         ("fma-chain", lambda x, c: fma(fma(x, c, x), x, fma(x, x, c)) * x),
+        # 0-d arrays (mutable, unlike Python scalars): dense and indexed uses of one value, in both orders
+        ("zero-d dense-then-indexed", lambda x, c: (x + c) + 3.0 * x[None][0] + x[...]),
+        ("zero-d indexed-then-dense", lambda x, c: 3.0 * x[None][0] + x[()] + (x * c + x)),
+        ("zero-d fan-out", lambda x, c: (x + x) + x[None, None][0, 0] * c + (x + 0.0)),
     ]
     for rep in range(cfg["n_progs"]):
         name, f = progs[rep % len(progs)]
-        shape = rng.choice([(3,), (2, 3)]) if name not in ("matmul",) else (2, 3)
-        x = ro([[rng.randint(-3, 3) for _ in range(shape[-1])] for _ in range(shape[0])] if len(shape) == 2
+        shape = () if name.startswith("zero-d") else rng.choice([(3,), (2, 3)]) if name not in ("matmul",) else (2, 3)
+        x = ro(float(rng.randint(-3, 3))) if shape == () else \
+            ro([[rng.randint(-3, 3) for _ in range(shape[-1])] for _ in range(shape[0])] if len(shape) == 2
                else [rng.randint(-3, 3) for _ in range(shape[0])])
         c = ro(onp.array([rng.randint(1, 3) for _ in range(int(onp.prod(shape)))]).reshape(shape))
         out["oracle_n"] += 1
